@@ -340,6 +340,7 @@ func runC02(c *Check) {
 	ruleP2PCursor(c, p)
 	c.Doc("C02-R9", "EO: in the sync loop an event's hash is marked seen only after the sync attempt of the same iteration returned without error (a seen mark is persisted with the cache and makes every re-delivery a duplicate: set before a failed attempt it leaves the block unapplied for good).")
 	ruleSeenOnlyAfterSyncAttempt(c, p, steps)
+	ruleMarksAfterItems(c, p, "C02-R10")
 }
 
 // ruleP2PCursor (C02-R8): the polling loops over the P2P header/data stores keep a cursor (the
